@@ -91,9 +91,12 @@ def plan(case, rseed, force=None):
             cand.append("ref")
         if len(D) >= 1 and all(api[t - 1] for t in D) and len(set(D)) == len(D):
             cand.append("union")
-        k = want if want in cand else rng.choice(cand)
-        if k == "struct" and (want == "hybrid" or (want is None and rng.random() < 0.3)):
-            k = "hybrid"          # the struct behind an xo.HybridClass: fields through _xofields, dependencies through the class body
+        if want == "hybrid" or want in cand:
+            k = want
+        else:
+            k = rng.choice(cand)
+            if k == "struct" and rng.random() < 0.3:
+                k = "hybrid"      # the struct behind an xo.HybridClass: fields through _xofields, dependencies through the class body
         kinds[c] = k
         if k in ("struct", "hybrid"):
             pmax = 0
